@@ -33,12 +33,18 @@ Definition mean_prod (ya yc : list Qc) : Qc := qsum (map2 Qcmult ya yc) / qn (le
 Definition jansen_spec (ya yc : list Qc) : Qc :=
   (qsum (map2 (fun a c => (a - c) * (a - c)) ya yc) / (two * qn (length ya))) / Vhat ya.
 
-(* Homma & Saltelli (1996):  ST_i = (V - (1/N sum_j f(A)_j f(C_i)_j - f0^2)) / V *)
+(* Homma & Saltelli (1996):  ST_i = (V - (1/N sum_j f(A)_j f(C_i)_j - f0^2)) / V,  every moment a 1/N average *)
 Definition homma_spec (ya yc : list Qc) : Qc :=
-  (Vhat ya - (mean_prod ya yc - mean ya * mean ya)) / Vhat ya.
+  (Vpop ya - (mean_prod ya yc - mean ya * mean ya)) / Vpop ya.
 
-(* Saltelli (2008):  ST_i = 1 - (1/N sum_j f(A)_j f(C_i)_j - f0^2) / V *)
+(* Saltelli (2008):  ST_i = 1 - (1/N sum_j f(A)_j f(C_i)_j - f0^2) / V,  every moment a 1/N average *)
 Definition saltelli_spec (ya yc : list Qc) : Qc :=
+  1 - (mean_prod ya yc - mean ya * mean ya) / Vpop ya.
+
+(* the same two with the unbiased variance (what the code computed BEFORE its fix) *)
+Definition homma_orig_spec (ya yc : list Qc) : Qc :=
+  (Vhat ya - (mean_prod ya yc - mean ya * mean ya)) / Vhat ya.
+Definition saltelli_orig_spec (ya yc : list Qc) : Qc :=
   1 - (mean_prod ya yc - mean ya * mean ya) / Vhat ya.
 
 (* Janon et al. (2014), with the normalisation the code used BEFORE its fix for the second moment: 1/(N-1) *)
@@ -53,9 +59,13 @@ Definition janon_published (ya yc : list Qc) : Qc :=
       / (qsum (map2 (fun a c => (a * a + c * c) / two) ya yc) / qn (length ya)
          - janon_mean ya yc * janon_mean ya yc).
 
-(* Glen & Isaacs (2012), correlation form:  ST_i = 1 - [1/(N-1) sum_j (f(A)_j - mA)(f(C_i)_j - mC)] / sqrt(VA VC),
-   VA, VC population variances *)
+(* Glen & Isaacs (2012), correlation form:  ST_i = 1 - rho(f(A), f(C_i)),
+   rho = [1/N sum_j (f(A)_j - mA)(f(C_i)_j - mC)] / sqrt(VA VC),  VA, VC population variances (Pearson) *)
 Definition glen_spec (sqrt : Qc -> Qc) (ya yc : list Qc) : Qc :=
+  1 - (qsum (map2 (fun a c => (a - mean ya) * (c - mean yc)) ya yc) / qn (length ya))
+      / sqrt (Vpop ya * Vpop yc).
+(* with the covariance normalised by 1/(N-1) (what the code computed BEFORE its fix) *)
+Definition glen_orig_spec (sqrt : Qc -> Qc) (ya yc : list Qc) : Qc :=
   1 - (qsum (map2 (fun a c => (a - mean ya) * (c - mean yc)) ya yc) / (qn (length ya) - 1))
       / sqrt (Vpop ya * Vpop yc).
 
